@@ -351,3 +351,189 @@ Proof.
                  intros ->. apply N2; reflexivity.
 Qed.
 End Remove.
+
+(* ---- re-pointing a 1-1 reference: x.f = y with partner release and stealing ---- *)
+Ltac upd_cases :=
+  repeat match goal with
+  | |- context [upd _ ?k _ ?k'] =>
+      let E := fresh "E" in let N := fresh "N" in
+      destruct (cell_eqb_spec k k') as [E|N];
+      [ inversion E; subst; clear E; rewrite ?upd_same | rewrite (upd_other _ k k' _ N) ]
+  end.
+
+Definition hdv (l : list value) : value := match l with v :: _ => v | [] => VNone end.
+
+Section Store11.
+Variable V : cell -> list value.
+Variables x y : oid.
+Variables f g : fid.
+Hypothesis Hfg : f <> g.
+Hypothesis HsymV : forall a b : oid, hdv (V (a, f)) = VObj b <-> hdv (V (b, g)) = VObj a.
+
+(* the final store of x.f = y for single-valued f and g: own slot, released
+   previous partner (pq), detached previous partner of y (pc), new back-reference *)
+Definition F11 (pq pc : option oid) : cell -> list value :=
+  let V1 := upd V (x, f) [VObj y] in
+  let V3 := match pq with Some q => upd V1 (q, g) [VNone] | None => V1 end in
+  let V4 := match pc with Some c => upd V3 (c, f) [VNone] | None => V3 end in
+  upd V4 (y, g) [VObj x].
+
+Lemma set11_store pq pc :
+  (match pq with Some q => hdv (V (x, f)) = VObj q /\ q <> y
+               | None => (forall q, hdv (V (x, f)) = VObj q -> q = y) end) ->
+  (match pc with Some c => hdv (V (y, g)) = VObj c /\ c <> x
+               | None => (forall c, hdv (V (y, g)) = VObj c -> c = x) end) ->
+  forall a b : oid, hdv (F11 pq pc (a, f)) = VObj b <-> hdv (F11 pq pc (b, g)) = VObj a.
+Proof.
+  intros Hq Hc a b. unfold F11.
+  pose proof (HsymV a b) as S1. pose proof (HsymV x y) as S2. pose proof (HsymV a y) as S4. pose proof (HsymV x b) as S5.
+  destruct pq as [q|]; destruct pc as [c|]; cbv zeta.
+  - destruct Hq as [Hq Hqy]. destruct Hc as [Hc Hcx].
+    pose proof (HsymV x q) as T1. pose proof (HsymV c y) as T2. pose proof (HsymV c b) as T3. pose proof (HsymV a q) as T4.
+    assert (U1 : hdv (V (b, g)) = VObj x -> b = q).
+    { intros H. apply (proj2 (HsymV x b)) in H. rewrite Hq in H. inversion H. reflexivity. }
+    assert (U2 : hdv (V (a, f)) = VObj y -> a = c).
+    { intros H. apply (proj1 (HsymV a y)) in H. rewrite Hc in H. inversion H. reflexivity. }
+    assert (U3 : hdv (V (b, g)) = VObj c -> b = y).
+    { intros H. apply (proj2 (HsymV c b)) in H. pose proof (proj2 (HsymV c y) Hc) as Hc'. rewrite Hc' in H. inversion H. reflexivity. }
+    assert (U4 : hdv (V (a, f)) = VObj q -> a = x).
+    { intros H. apply (proj1 (HsymV a q)) in H. pose proof (proj1 (HsymV x q) Hq) as Hq'. rewrite Hq' in H. inversion H. reflexivity. }
+    upd_cases; cbn [hdv] in *; try solve [intuition congruence | timeout 20 firstorder congruence].
+  - destruct Hq as [Hq Hqy].
+    pose proof (HsymV x q) as T1. pose proof (HsymV a q) as T4. pose proof (Hc a) as T5. pose proof (Hc x) as T6.
+    upd_cases; cbn [hdv] in *; try solve [intuition congruence | timeout 20 firstorder congruence].
+  - destruct Hc as [Hc Hcx].
+    pose proof (HsymV c y) as T2. pose proof (HsymV c b) as T3. pose proof (Hq b) as T5. pose proof (Hq y) as T6.
+    upd_cases; cbn [hdv] in *; try solve [intuition congruence | timeout 20 firstorder congruence].
+  - pose proof (Hc a) as T5. pose proof (Hc x) as T6. pose proof (Hq b) as T7. pose proof (Hq y) as T8.
+    upd_cases; cbn [hdv] in *; try solve [intuition congruence | timeout 20 firstorder congruence].
+Qed.
+
+(* F11 only writes f- and g-slots, and each written slot holds one value *)
+Lemma F11_other pq pc (a : oid) (h : fid) : h <> f -> h <> g -> F11 pq pc (a, h) = V (a, h).
+Proof.
+  intros Hf Hg. unfold F11. destruct pq, pc; cbv zeta; repeat rewrite upd_other; try reflexivity;
+    intros E; inversion E; congruence.
+Qed.
+
+Lemma F11_singleton pq pc (a : oid) (h : fid) :
+  (exists v, V (a, h) = [v]) -> exists v, F11 pq pc (a, h) = [v].
+Proof.
+  intros HV. unfold F11. destruct pq, pc; cbv zeta; upd_cases; eauto.
+Qed.
+End Store11.
+
+Section Set11.
+Variable m : mm.
+Hypothesis Hnc : no_containment m.
+Hypothesis Hwf : wf_opp m.
+
+Lemma single_hdv s k : single s k = hdv (vals s k).
+Proof. reflexivity. Qed.
+
+Lemma R_hdv s a f b :
+  (exists v, vals s (a, f) = [v]) -> (R s f a b <-> hdv (vals s (a, f)) = VObj b).
+Proof.
+  intros [v Hv]. unfold R. rewrite Hv. simpl. split; [intros [H|[]]; exact H | intros H; left; exact H].
+Qed.
+
+(* the value store after x.f = y, for single-valued f and g with f <> g *)
+Lemma set11_vals s x f g y :
+  f_opp (fd m f) = Some g -> f <> g ->
+  f_many (fd m f) = false -> f_many (fd m g) = false ->
+  check_single m f (VObj y) = true ->
+  exists pq pc,
+    (forall k, vals (snd (set_full m s (x, f) (VObj y))) k = F11 (vals s) x y f g pq pc k) /\
+    (match pq with Some q => hdv (vals s (x, f)) = VObj q /\ q <> y
+                 | None => (forall q, hdv (vals s (x, f)) = VObj q -> q = y) end) /\
+    (match pc with Some c => hdv (vals s (y, g)) = VObj c /\ c <> x
+                 | None => (forall c, hdv (vals s (y, g)) = VObj c -> c = x) end).
+Proof.
+  intros Hfg Hne Hsf Hsg Hchk. destruct (Hwf f g Hfg) as [Hgf [Href _]].
+  unfold set_full. rewrite Hchk, Href. cbn [negb]. rewrite (update_container_id m Hnc). rewrite Hfg.
+  cbn [obj_of]. rewrite Hsg.
+  assert (Hcell : forall q, cell_eqb (q, g) (x, f) = false).
+  { intros q. destruct (cell_eqb_spec (q, g) (x, f)) as [E|N]; [inversion E; congruence | reflexivity]. }
+  set (pv := single s (x, f)).
+  set (s1 := set_store m s (x, f) (VObj y)).
+  (* release of the previous partner *)
+  set (s3 := match obj_of pv with
+             | Some q => if y =? q then s1 else if cell_eqb (q, g) (x, f) then s1 else set_none_raw m s1 (q, g)
+             | None => s1 end).
+  set (pq := match obj_of pv with Some q => if y =? q then None else Some q | None => None end).
+  assert (H3 : forall k, vals s3 k =
+            match pq with Some q => upd (upd (vals s) (x, f) [VObj y]) (q, g) [VNone]
+                        | None => upd (vals s) (x, f) [VObj y] end k).
+  { intros k. unfold s3, pq. destruct (obj_of pv) as [q|]; [|reflexivity].
+    destruct (y =? q); [reflexivity|]. rewrite Hcell. rewrite (vals_set_none_raw m Hnc). reflexivity. }
+  assert (Hpq : match pq with Some q => hdv (vals s (x, f)) = VObj q /\ q <> y
+                            | None => (forall q, hdv (vals s (x, f)) = VObj q -> q = y) end).
+  { unfold pq. destruct (obj_of pv) as [q|] eqn:Eq.
+    - apply obj_of_Some' in Eq. destruct (Nat.eqb_spec y q) as [E|N].
+      + intros q' Hq'. unfold pv in Eq. rewrite single_hdv in Eq. congruence.
+      + split; [unfold pv in Eq; rewrite single_hdv in Eq; exact Eq | congruence].
+    - intros q' Hq'. unfold pv in Eq. rewrite single_hdv in Eq. rewrite Hq' in Eq. discriminate. }
+  (* the current partner of y is read in s3: its g-slot is untouched so far *)
+  assert (Hyg : single s3 (y, g) = hdv (vals s (y, g))).
+  { rewrite single_hdv, H3. destruct pq as [q|].
+    - destruct Hpq as [_ Hqy]. rewrite upd_other by (intros E; inversion E; congruence).
+      rewrite upd_other by (intros E; inversion E; congruence). reflexivity.
+    - rewrite upd_other by (intros E; inversion E; congruence). reflexivity. }
+  set (pc := match obj_of (hdv (vals s (y, g))) with Some c => if c =? x then None else Some c | None => None end).
+  exists pq, pc. split; [|split; [exact Hpq|]].
+  - assert (UE : forall (g1 g2 : cell -> list value) c0 v0,
+               (forall k0, g1 k0 = g2 k0) -> forall k0, upd g1 c0 v0 k0 = upd g2 c0 v0 k0).
+    { intros g1 g2 c0 v0 E k0. unfold upd. destruct (cell_eqb c0 k0); [reflexivity | apply E]. }
+    assert (H3' : forall k0, vals s3 k0 =
+              match pq with Some q => upd (upd (vals s) (x, f) [VObj y]) (q, g) [VNone] k0
+                          | None => upd (vals s) (x, f) [VObj y] k0 end).
+    { intros k0. rewrite H3. destruct pq; reflexivity. }
+    intros k. fold s1. fold pv. fold s3. rewrite Hyg. unfold pc, F11. cbv zeta.
+    destruct (obj_of (hdv (vals s (y, g)))) as [c|].
+    + destruct (c =? x); cbn [snd].
+      * rewrite (vals_set_obj_raw m Hnc). apply UE. intros k0. rewrite H3'. destruct pq; reflexivity.
+      * rewrite (vals_set_obj_raw m Hnc). apply UE. intros k0.
+        rewrite (vals_set_none_raw m Hnc). apply UE. intros k1. rewrite H3'. destruct pq; reflexivity.
+    + cbn [snd]. rewrite (vals_set_obj_raw m Hnc). apply UE. intros k0. rewrite H3'. destruct pq; reflexivity.
+  - unfold pc. destruct (obj_of (hdv (vals s (y, g)))) as [c|] eqn:Ec.
+    + apply obj_of_Some' in Ec. destruct (Nat.eqb_spec c x) as [E|N].
+      * intros c' Hc'. congruence.
+      * split; [exact Ec | exact N].
+    + intros c' Hc'. rewrite Hc' in Ec. discriminate.
+Qed.
+
+Theorem set11_preserves_sym s x f g y :
+  sym m s -> shape m s ->
+  f_opp (fd m f) = Some g -> f <> g ->
+  f_many (fd m f) = false -> f_many (fd m g) = false ->
+  check_single m f (VObj y) = true ->
+  sym m (snd (set_full m s (x, f) (VObj y))).
+Proof.
+  intros Hsym Hsh Hfg Hne Hsf Hsg Hchk. destruct (Hwf f g Hfg) as [Hgf _].
+  destruct (set11_vals s x f g y Hfg Hne Hsf Hsg Hchk) as [pq [pc [HV [Hpq Hpc]]]].
+  set (s' := snd (set_full m s (x, f) (VObj y))) in *.
+  assert (HsymV : forall a b : oid, hdv (vals s (a, f)) = VObj b <-> hdv (vals s (b, g)) = VObj a).
+  { intros a b. rewrite <- (R_hdv s a f b) by (apply (proj1 (Hsh a f)); exact Hsf).
+    rewrite <- (R_hdv s b g a) by (apply (proj1 (Hsh b g)); exact Hsg). apply Hsym. exact Hfg. }
+  pose proof (set11_store (vals s) x y f g Hne HsymV pq pc Hpq Hpc) as Hfin.
+  assert (Hsing : forall a h, f_many (fd m h) = false -> exists v, vals s' (a, h) = [v]).
+  { intros a h Hh. rewrite HV. apply (F11_singleton (vals s) x y f g Hne HsymV). apply (proj1 (Hsh a h)). exact Hh. }
+  intros f' g' Hfg' a b.
+  destruct (Nat.eq_dec f' f) as [Ef|Nf].
+  - subst f'. rewrite Hfg in Hfg'. inversion Hfg'; subst g'.
+    rewrite (R_hdv s' a f b) by (apply Hsing; exact Hsf).
+    rewrite (R_hdv s' b g a) by (apply Hsing; exact Hsg).
+    rewrite !HV. apply Hfin.
+  - destruct (Nat.eq_dec f' g) as [Eg|Ng].
+    + subst f'. rewrite Hgf in Hfg'. inversion Hfg'; subst g'.
+      rewrite (R_hdv s' a g b) by (apply Hsing; exact Hsg).
+      rewrite (R_hdv s' b f a) by (apply Hsing; exact Hsf).
+      rewrite !HV. symmetry. apply Hfin.
+    + (* an unrelated pair: neither f' nor g' is f or g *)
+      assert (Ng' : g' <> f /\ g' <> g).
+      { destruct (Hwf f' g' Hfg') as [Hg'f' _]. split; intros E; subst g'; congruence. }
+      unfold R. rewrite !HV. rewrite (F11_other (vals s) x y f g pq pc a f' Nf Ng).
+      rewrite (F11_other (vals s) x y f g pq pc b g' (proj1 Ng') (proj2 Ng')).
+      exact (Hsym f' g' Hfg' a b).
+Qed.
+End Set11.
